@@ -92,10 +92,16 @@ let ranker spec : n -> n =
 let backend_of be cpu =
   match be with
   | "swar" -> BSwar | "sse2" -> BSse2 | "avx2" -> BAvx2 | "neon" -> BNeon | "simd128" -> BSimd128
-  | "top" -> x86_choice (match cpu with "sse2" -> Sse2Only | "none" -> NoSimd | _ -> HasAvx2)
+  | "top" -> (match cpu with
+      | "neon" -> BNeon | "simd128" -> BSimd128
+      | _ -> x86_choice (match cpu with "sse2" -> Sse2Only | "none" -> NoSimd | _ -> HasAvx2))
   | _ -> failwith ("unknown backend " ^ be)
 
-let arch_of cpu = AX86 (match cpu with "sse2" -> Sse2Only | "none" -> NoSimd | _ -> HasAvx2)
+let arch_of cpu =
+  match cpu with
+  | "neon" -> AAarch64
+  | "simd128" -> AWasm
+  | _ -> AX86 (match cpu with "sse2" -> Sse2Only | "none" -> NoSimd | _ -> HasAvx2)
 
 (* decimal printing of N (may exceed OCaml's int for the 64-bit byte set) *)
 let string_of_n (v : n) : string =
@@ -197,7 +203,7 @@ let run_case op kv : string * string =
           (Printf.sprintf "min=%d:%s" (int_of_nat (pw_min w)) (fmt_res fmt_opt_nat r), fmt_trace t)))
   | "pfprefilter" ->
     let x = bytes kv "x" and h = bytes kv "h" in
-    let cpu = (match get kv "cpu" with "sse2" -> Sse2Only | "none" -> NoSimd | _ -> HasAvx2) in
+    let cpu = backend_of "top" (get kv "cpu") in
     (match pair_with_indices x (nat_of_int (num kv "i1")) (nat_of_int (num kv "i2")) with
      | None -> ("NoPair", "-")
      | Some (i1, i2) ->
